@@ -159,6 +159,10 @@ def mutate_line(rng, line):
     return line[:i] + line[i].swapcase() + line[i + 1:]
 
 
+def is_open(chk, key):
+    return any(f["key"] == key and f.get("status", "open") == "open" for f in chk.findings)
+
+
 def classify(chk, res, cases, payload_of, what_bad, what_mismatch, stats, seen, pending):
     unm = 0
     if res is None:
@@ -181,7 +185,7 @@ def classify(chk, res, cases, payload_of, what_bad, what_mismatch, stats, seen, 
             chk.disagreements += 1
             key = REGIONS.get(region)
             stats[key or "none"] = stats.get(key or "none", 0) + 1
-            if key is None or not chk.known(key, True):
+            if key is None or not is_open(chk, key):      # reported once by witnesses()
                 outside = True
                 pending.append(("failing-input", dict(payload, what=what_bad, region=region), True))
             else:
@@ -388,7 +392,7 @@ def run_part(chk, judge=None):
                     chk.disagreements += 1
                     key = REGIONS.get(region)
                     stats[key or "none"] = stats.get(key or "none", 0) + 1
-                    if key is None or not chk.known(key, True):
+                    if key is None or not is_open(chk, key):      # reported once by witnesses()
                         outside = True
                         pending.append(("failing-input", dict(payload, what="a declared variable is reported differently "
                                                               "from its declaration"), True))
